@@ -1,6 +1,7 @@
 import A2Verif.Lemmas.SrvPoison
 import A2Verif.Lemmas.SrvSent
-import A2Verif.Lemmas.SrvAn
+import A2Verif.Lemmas.SrvCfgInv
+import A2Verif.Model.SrvFields
 /-!
 # C18 — Language servers report on the latest text under any schedule
 
@@ -9,17 +10,19 @@ the notification handlers and the configuration-response handler of the three se
 quantify over **every** event list, i.e. every notification history and every interleaving of the
 analysis threads (`acquire/finish/die` events are the scheduler).
 
-The analysis is a parameter `an : Text → Option Diags`; the theorems hold for every `an`.
+In (i)–(iv) what a job computes is a parameter `an : job id → Text → Option Diags`; the theorems hold for
+every `an`.  (v) determines the results from the client's settings and the shared analyzer object
+(`Model/SrvCfg.lean`); (vi) ties the hypothesis "`analyze` resets" to tables generated from the source.
 -/
 namespace A2Verif.C18
 open A2Verif.Srv
 
-variable (an : Text → Option Diags)
+variable (an : Nat → Text → Option Diags)
 
 /-! ## helper facts about lists of publications -/
 
 theorem pubOf_some {jd : Nat × Doc} {p : Pub} (h : pubOf an jd = some p) :
-    p.id = jd.1 ∧ p.uri = jd.2.uri ∧ p.ver = jd.2.ver ∧ an jd.2.text = some p.diags := by
+    p.id = jd.1 ∧ p.uri = jd.2.uri ∧ p.ver = jd.2.ver ∧ an jd.1 jd.2.text = some p.diags := by
   unfold pubOf at h
   split at h
   · rename_i d hd
@@ -66,35 +69,33 @@ theorem filter_pub_nil (l : List (Nat × Doc)) (u : Uri) (h : l.filter (fun jd =
   simp only [List.map_nil, List.sublist_nil, List.map_eq_nil_iff] at this
   exact this
 
-/-- if the last job launched for `u` carries document `d` and `d` analyses to `r`, the last
-publication for `u` in the exact published list is `(u, d.ver, r)` -/
-theorem lastPub_of_lastLaunched (l : List (Nat × Doc)) (u : Uri) (d : Doc) (r : Diags)
-    (hl : lastLaunched l u = some d) (hr : an d.text = some r) :
-    ∃ id, lastPub (l.filterMap (pubOf an)) u = some { id := id, uri := u, ver := d.ver, diags := r } := by
+/-- if the last job launched for `u` is job `id` with document `d` and its analysis yields `r`, the last
+publication for `u` in the exact published list is `(u, d.ver, r)`, produced by that job -/
+theorem lastPub_of_lastLaunchedJ (l : List (Nat × Doc)) (u : Uri) (id : Nat) (d : Doc) (r : Diags)
+    (hl : lastLaunchedJ l u = some (id, d)) (hr : an id d.text = some r) :
+    lastPub (l.filterMap (pubOf an)) u = some { id := id, uri := u, ver := d.ver, diags := r } := by
   induction l with
-  | nil => simp [lastLaunched] at hl
+  | nil => simp [lastLaunchedJ] at hl
   | cons x l ih =>
     by_cases hx : x.2.uri = u
     · cases hlast : (l.filter (fun jd => jd.2.uri = u)).getLast? with
       | none =>
         have hnil : l.filter (fun jd => jd.2.uri = u) = [] := List.getLast?_eq_none_iff.mp hlast
-        have hd : x.2 = d := by
-          simp [lastLaunched, hx, hnil] at hl
+        have hd : x = (id, d) := by
+          simp [lastLaunchedJ, hx, hnil] at hl
           exact hl
         have hp : pubOf an x = some { id := x.1, uri := x.2.uri, ver := x.2.ver, diags := r } := by
           simp [pubOf, hd, hr]
-        refine ⟨x.1, ?_⟩
         simp only [lastPub, List.filterMap_cons, hp, List.filter_cons, hx, decide_true, if_true]
         rw [filter_pub_nil an l u hnil]
-        simp [← hd]
+        simp [hd]
       | some y =>
-        have hd : lastLaunched l u = some d := by
-          simp only [lastLaunched, List.filter_cons, hx, decide_true, if_true] at hl
+        have hd : lastLaunchedJ l u = some (id, d) := by
+          simp only [lastLaunchedJ, List.filter_cons, hx, decide_true, if_true] at hl
           rw [getLast?_cons_of_some hlast] at hl
-          simp only [lastLaunched, hlast]
+          simp only [lastLaunchedJ, hlast]
           exact hl
-        obtain ⟨id, hid⟩ := ih hd
-        refine ⟨id, ?_⟩
+        have hid := ih hd
         simp only [lastPub, List.filterMap_cons] at hid ⊢
         cases hp : pubOf an x with
         | none => exact hid
@@ -103,11 +104,10 @@ theorem lastPub_of_lastLaunched (l : List (Nat × Doc)) (u : Uri) (d : Doc) (r :
           split
           · exact getLast?_cons_of_some hid
           · exact hid
-    · have hd : lastLaunched l u = some d := by
-        simp only [lastLaunched, List.filter_cons, hx, decide_false] at hl
+    · have hd : lastLaunchedJ l u = some (id, d) := by
+        simp only [lastLaunchedJ, List.filter_cons, hx, decide_false] at hl
         exact hl
-      obtain ⟨id, hid⟩ := ih hd
-      refine ⟨id, ?_⟩
+      have hid := ih hd
       simp only [lastPub, List.filterMap_cons] at hid ⊢
       cases hp : pubOf an x with
       | none => exact hid
@@ -147,7 +147,7 @@ theorem versions_in_order (R : Ver → Ver → Prop) {evs : List Event} {s : Sta
 
 /-- non-vacuity: two edits whose analyses complete in the *opposite* order (job 1 obtains the mutex
 and finishes before job 0) are still published as version 1, then version 2 -/
-example : (run (fun t => some t) init
+example : (run (fun _ t => some t) init
     [.opn 7 1 100, .chg 7 2 101, .acquire 1, .tick, .finish 1, .tick, .acquire 0, .finish 0, .tick, .tick]).map
       (fun s => s.published.map (fun p => (p.uri, p.ver, p.diags)))
     = some [(7, some 1, 100), (7, some 2, 101)] := by decide
@@ -182,21 +182,32 @@ theorem published_exact_after_quiescence {evs : List Event} {s : State} (hr : ru
 
 /-- **C18 clause (ii), per document**: for histories of opens, changes, closes and configuration
 answers, under any schedule without a dying thread and with every job finishing, after the queue has
-drained the last publication for each document `u` carries the version of the last `didOpen`/
-`didChange` sent for `u` and the analysis of that last text (provided that analysis succeeds). -/
+drained the last publication for each document `u` stems from the last job launched for `u`, which
+carries the version and text of the last `didOpen`/`didChange` sent for `u`, and is the analysis result
+of that job (provided that analysis succeeds). -/
 theorem last_publication_is_last_sent {evs : List Event} {s : State} (hr : run an init evs = some s)
     (hnd : ∀ e ∈ evs, notDie e) (hplain : ∀ e ∈ evs, plain e)
     (hfair : ∀ id, id < s.nextId → Event.finish id ∈ evs) :
     ∃ s', run an init (evs ++ List.replicate s.queue.length .tick) = some s' ∧ s'.queue = [] ∧
-      ∀ u d r, lastSent evs u = some d → an d.text = some r →
-        ∃ id, lastPub s'.published u = some { id := id, uri := u, ver := d.ver, diags := r } := by
+      ∀ u d, lastSent evs u = some d → ∃ id, lastLaunchedJ s.launched u = some (id, d) ∧
+        ∀ r, an id d.text = some r →
+          lastPub s'.published u = some { id := id, uri := u, ver := d.ver, diags := r } := by
   obtain ⟨s', h1, h2, _, h4⟩ := published_exact_after_quiescence an hr hnd hfair
   refine ⟨s', h1, h2, ?_⟩
-  intro u d r hd hrr
+  intro u d hd
   have hsent := SentInv.run an hplain SentInv.init hr
   have hl : lastLaunched s.launched u = some d := by rw [hsent.last u]; exact hd
-  rw [h4]
-  exact lastPub_of_lastLaunched an s.launched u d r hl hrr
+  rw [lastLaunched_eq_map] at hl
+  cases hj : lastLaunchedJ s.launched u with
+  | none => simp [hj] at hl
+  | some jd =>
+    obtain ⟨id, d'⟩ := jd
+    simp only [hj, Option.map_some, Option.some.injEq] at hl
+    subst hl
+    refine ⟨id, rfl, ?_⟩
+    intro r hrr
+    rw [h4]
+    exact lastPub_of_lastLaunchedJ an s.launched u id d' r hj hrr
 
 /-- non-vacuity for (ii): a burst of three edits on one document and one on another, jobs finishing
 out of order; all hypotheses hold and the last publication for document 7 is version 3 -/
@@ -204,10 +215,10 @@ example :
     let evs : List Event := [.opn 7 1 100, .opn 8 1 200, .chg 7 2 101, .chg 7 3 102,
       .acquire 3, .finish 3, .acquire 1, .finish 1, .tick, .acquire 0, .finish 0, .acquire 2, .finish 2]
     (∀ e ∈ evs, notDie e) ∧ (∀ e ∈ evs, plain e) ∧
-    (run (fun t => some (t + 1)) init evs).map (fun s => (s.nextId, s.queue.length)) = some (4, 4) ∧
+    (run (fun _ t => some (t + 1)) init evs).map (fun s => (s.nextId, s.queue.length)) = some (4, 4) ∧
     (∀ id, id < 4 → Event.finish id ∈ evs) ∧
     lastSent evs 7 = some { uri := 7, ver := some 3, text := 102 } ∧
-    (run (fun t => some (t + 1)) init (evs ++ List.replicate 4 .tick)).map
+    (run (fun _ t => some (t + 1)) init (evs ++ List.replicate 4 .tick)).map
       (fun s => (lastPub s.published 7).map (fun p => (p.ver, p.diags))) = some (some (some 3, 103)) := by
   refine ⟨by decide, by decide, by decide, by decide, by decide, by decide⟩
 
@@ -249,23 +260,24 @@ the main loop can be delayed by the one analysis in progress, but by nothing els
 is skipped), and it changes nothing.  The second half (relaunch of every open document with a private
 analyzer) never waits. -/
 theorem config_waits_only_for_the_holder (s : State) :
-    ((step an s .configLock).isSome = true ↔ (∀ id, s.lock ≠ .held id)) ∧
-    (∀ s', step an s .configLock = some s' → s' = s) ∧
-    (∀ live order, (step an s (.config live order)).isSome = true ↔ samePerm order (keys s.docs) = true) := by
+    (∀ c, (step an s (.configLock c)).isSome = true ↔ (∀ id, s.lock ≠ .held id)) ∧
+    (∀ c s', step an s (.configLock c) = some s' → s' = s) ∧
+    (∀ c live order, (step an s (.config c live order)).isSome = true ↔ samePerm order (keys s.docs) = true) := by
   refine ⟨?_, ?_, ?_⟩
-  · simp only [step]
+  · intro c
+    simp only [step]
     cases hl : s.lock <;> simp
-  · intro s' h
+  · intro c s' h
     simp only [step] at h
     split at h
     · simp at h
     · simp only [Option.some.injEq] at h; exact h.symm
-  · intro live order
+  · intro c live order
     simp only [step]
     by_cases h : samePerm order (keys s.docs) = true <;> simp [h]
 
 /-- every reachable state answers a request (non-vacuity of (iii) on a state with a held mutex) -/
-example : (run (fun t => some t) init [.opn 1 1 5, .acquire 0, .request, .tick, .request]).map
+example : (run (fun _ t => some t) init [.opn 1 1 5, .acquire 0, .request, .tick, .request]).map
     (fun s => (s.answered, s.queue.length, s.published.length)) = some (2, 1, 0) := by decide
 
 /-! ## (iv) a dying analysis thread silences the server for good -/
@@ -308,92 +320,236 @@ theorem nothing_new_after_poison {evs evs' : List Event} {s s' : State} (hr0 : r
 /-- witness for (iv): the first analysis dies; the document is changed twice afterwards, both jobs
 run (`lock()` returns `Err`), the main loop keeps turning and answering requests, and nothing is
 ever published -/
-example : (run (fun t => some t) init
+example : (run (fun _ t => some t) init
     [.opn 1 1 5, .acquire 0, .die 0, .tick, .chg 1 2 6, .acquire 1, .tick, .request, .chg 1 3 7, .acquire 2, .tick, .tick]).map
       (fun s => (s.lock, s.published.length, s.queue.length, s.answered))
     = some (.poisoned, 0, 0, 1) := by decide
 
-/-! ## (v) the shared analyzer object: when is a published result a function of the text alone? -/
+/-! ## (v) settings and the shared analyzer object: what does a publication depend on?
 
-/-- **What the equals-fresh-analysis oracle checks, stated.**  In the model with the analyzer object's
-state explicit (`stepS`: every shared job sees the state its predecessor on the mutex left behind), if
-`analyze` resets its state (`A.resets`) then under every history and schedule everything published is,
-in launch order, the analysis *by a new analyzer of that job's own text alone* (`A.alone`). -/
-theorem published_is_function_of_text_alone {A : Analyzer} (hreset : A.resets) {evs : List Event} {ss : SState}
-    (hr : runS A (sinit A) evs = some ss) :
-    ss.srv.published.Sublist (ss.srv.launched.filterMap (pubOf A.alone)) :=
-  published_in_launch_order A.alone (runS_refines hreset hr)
+`Model/SrvCfg.lean` (`stepC`) makes the two things a job's result depends on part of the protocol state:
+the settings the client sends in answer to `workspace/configuration` (events `configLock c`,
+`config c live order`: the two halves of `response.rs`) and the analyzer object behind the mutex.  A
+shared job computes `A.run acfg shared text` with whatever settings and carried state the object has
+*when the job finishes its turn on the mutex*; a job launched by the configuration handler computes
+`A.run c (A.setCfg c A.fresh) text` on its own new analyzer. -/
 
-/-- **C18 clause (ii) for the stateful model**: with a resetting analyzer, no thread death and every
-job finishing, after the queue has drained the last publication for each document carries the last
-version sent and equals the analysis of the last text alone by a new analyzer — whatever other
-documents and older versions went through the shared analyzer before, in whatever order. -/
-theorem stateful_last_publication_equals_fresh_analysis {A : Analyzer} (hreset : A.resets)
-    {evs : List Event} {ss : SState} (hr : runS A (sinit A) evs = some ss)
-    (hnd : ∀ e ∈ evs, notDie e) (hplain : ∀ e ∈ evs, plain e)
-    (hfair : ∀ id, id < ss.srv.nextId → Event.finish id ∈ evs) :
-    ∃ ss', runS A (sinit A) (evs ++ List.replicate ss.srv.queue.length .tick) = some ss' ∧ ss'.srv.queue = [] ∧
-      ∀ u d r, lastSent evs u = some d → A.alone d.text = some r →
-        ∃ id, lastPub ss'.srv.published u = some { id := id, uri := u, ver := d.ver, diags := r } := by
-  have hr0 : run A.alone init evs = some ss.srv := runS_refines hreset hr
-  obtain ⟨s', h1, h2, h3⟩ := last_publication_is_last_sent A.alone hr0 hnd hplain hfair
-  -- the ticks are enabled in the stateful model too and lead to the same server state
-  have hticks : ∀ (n : Nat) (x : SState) (s2 : State), run A.alone x.srv (List.replicate n .tick) = some s2 →
-      ∃ x', runS A x (List.replicate n .tick) = some x' ∧ x'.srv = s2 := by
+section config
+variable {σ : Type} {A : CAnalyzer σ}
+
+/-- **every theorem of (i)–(iv) applies to the model with settings and analyzer object**: its server
+part is a run of the base model, with the recorded results as the analysis function. -/
+theorem config_model_refines_protocol_model {evs : List Event} {cs : CState σ}
+    (hr : runC A (cinit A) evs = some cs) :
+    run (fun i _ => resOf cs.fin i) init evs = some cs.srv ∧
+    cs.srv.published.Sublist (cs.srv.launched.filterMap (pubOf (fun i _ => resOf cs.fin i))) :=
+  ⟨runC_is_run hr, published_in_launch_order _ (runC_is_run hr)⟩
+
+/-- **How the real handler waits, stated.**  The first half of the configuration handler is enabled
+exactly when the main thread is not already inside the handler and no job holds the mutex (the main
+thread blocks in `lock()` until the analysis in progress is over — it is never skipped because of
+contention); if the mutex is free the shared analyzer has the new settings afterwards.  While the
+handler is between its halves only threads move (`acquire`, `finish`, `die`). -/
+theorem config_response_waits_and_is_applied (cs : CState σ) (c : Cfg) :
+    ((stepC A cs (.configLock c)).isSome = true ↔ (cs.pending = none ∧ ∀ id, cs.srv.lock ≠ .held id)) ∧
+    (∀ cs', stepC A cs (.configLock c) = some cs' → cs.srv.lock = .free → cs'.acfg = c ∧ cs'.pending = some c ∧ cs'.srv = cs.srv) ∧
+    (cs.pending ≠ none → ∀ e, (stepC A cs e).isSome = true → (∃ id, e = .acquire id ∨ e = .finish id ∨ e = .die id) ∨
+      ∃ c' l o, e = .config c' l o) := by
+  refine ⟨?_, ?_, ?_⟩
+  · simp only [stepC]
+    cases hp : cs.pending <;> cases hl : cs.srv.lock <;> simp
+  · intro cs' h hl
+    simp only [stepC, hl] at h
+    split at h
+    · cases h
+    · simp only [Option.some.injEq] at h
+      subst h
+      exact ⟨rfl, rfl, rfl⟩
+  · intro hp e he
+    have hps : cs.pending.isSome = true := by
+      cases hpp : cs.pending with
+      | none => exact absurd hpp hp
+      | some _ => rfl
+    cases e with
+    | acquire id => exact .inl ⟨id, .inl rfl⟩
+    | finish id => exact .inl ⟨id, .inr (.inl rfl)⟩
+    | die id => exact .inl ⟨id, .inr (.inr rfl)⟩
+    | config c' l o => exact .inr ⟨c', l, o, rfl⟩
+    | configLock c' => simp [stepC, hps] at he
+    | opn u v t => simp [stepC, hps] at he
+    | chg u v t => simp [stepC, hps] at he
+    | save u t => simp [stepC, hps] at he
+    | close u => simp [stepC, hps] at he
+    | tick => simp [stepC, hps] at he
+    | request => simp [stepC, hps] at he
+
+/-- **What the equals-fresh-analysis oracle checks, stated.**  If `analyze` re-initialises what it keeps
+(`A.resets`), then under every history and schedule every completed analysis — hence everything
+published, in launch order (`config_model_refines_protocol_model`) — is the analysis *by a new analyzer*
+of that job's own text under the settings the job saw. -/
+theorem published_is_function_of_settings_and_text (hreset : A.resets) {evs : List Event} {cs : CState σ}
+    (hr : runC A (cinit A) evs = some cs) (hnd : ∀ e ∈ evs, notDie e) (hplain : ∀ e ∈ evs, plain e) :
+    ∀ f ∈ cs.fin, f.res = A.alone f.cfg f.text := by
+  intro f hf
+  have hinv := CfgInv.run hnd hplain (CfgInv.init A) hr
+  obtain ⟨a, ha⟩ := hinv.finRes f hf
+  rw [ha]
+  exact hreset _ _ _
+
+/-- **C18 clause (ii) with settings**: "the last one published carries the last version sent and equals
+what analysing that final text alone produces" — *under the settings the client sent last*.  For every
+history of opens, changes, closes and configuration answers and every schedule — including a
+configuration answer that arrives while a job holds the analyzer, jobs launched before the answer that
+obtain the mutex after it, private re-analyses overtaking shared ones — if no thread dies, every job
+finishes and the configuration handler is not in mid-flight, then after the queue has drained the last
+publication for every open document `u` carries the version of the last text sent for `u` and equals the
+analysis of that text alone by a new analyzer with the last settings. -/
+theorem last_publication_uses_last_settings (hreset : A.resets) {evs : List Event} {cs : CState σ}
+    (hr : runC A (cinit A) evs = some cs) (hnd : ∀ e ∈ evs, notDie e) (hplain : ∀ e ∈ evs, plain e)
+    (hfair : ∀ id, id < cs.srv.nextId → Event.finish id ∈ evs) (hidle : cs.pending = none) :
+    ∃ cs', runC A (cinit A) (evs ++ List.replicate cs.srv.queue.length .tick) = some cs' ∧ cs'.srv.queue = [] ∧
+      ∀ u d, lookup cs.srv.docs u = some d → lastSent evs u = some d ∧
+        ∀ r, A.alone (lastCfg evs) d.text = some r →
+          ∃ id, lastPub cs'.srv.published u = some { id := id, uri := u, ver := d.ver, diags := r } := by
+  have hrun := runC_is_run hr
+  have hinv := CfgInv.run hnd hplain (CfgInv.init A) hr
+  rw [← lastCfg_eq_foldl] at hinv
+  obtain ⟨s', h1, h2, h3⟩ := last_publication_is_last_sent _ hrun hnd hplain hfair
+  -- the ticks are enabled in the model with settings too and lead to the same server state
+  have hticks : ∀ (n : Nat) (x : CState σ) (s2 : State), x.pending = none →
+      run (fun i _ => resOf cs.fin i) x.srv (List.replicate n .tick) = some s2 →
+      ∃ x', runC A x (List.replicate n .tick) = some x' ∧ x'.srv = s2 := by
     intro n
     induction n with
-    | zero => intro x s2 h; simp only [List.replicate_zero, run, Option.some.injEq] at h; exact ⟨x, rfl, h⟩
+    | zero => intro x s2 _ h; simp only [List.replicate_zero, run, Option.some.injEq] at h; exact ⟨x, rfl, h⟩
     | succ n ih =>
-      intro x s2 h
+      intro x s2 hx h
       simp only [List.replicate_succ, run] at h
-      cases hs : step A.alone x.srv .tick with
+      cases hs : step (fun i _ => resOf cs.fin i) x.srv .tick with
       | none => simp [hs] at h
       | some s1 =>
         simp only [hs] at h
-        have hS : stepS A x .tick = some { srv := s1, shared := x.shared } := by
-          simp only [stepS, viewOf_eq_alone hreset, hs, Option.map_some]
-        obtain ⟨x', hx1, hx2⟩ := ih { srv := s1, shared := x.shared } s2 h
-        exact ⟨x', by simp only [List.replicate_succ, runS, hS]; exact hx1, hx2⟩
-  have happ : ∀ (a b : List Event) (x : SState), runS A x (a ++ b) = (runS A x a).bind (fun y => runS A y b) := by
-    intro a
-    induction a with
-    | nil => intro b x; simp [runS]
-    | cons e a ih =>
-      intro b x
-      simp only [List.cons_append, runS]
-      cases stepS A x e with
-      | none => simp
-      | some y => simp [ih]
-  rw [run_append, hr0] at h1
-  obtain ⟨x', hx1, hx2⟩ := hticks _ ss s' h1
-  refine ⟨x', ?_, by rw [hx2]; exact h2, ?_⟩
-  · rw [happ, hr]; exact hx1
-  · rw [hx2]; exact h3
+        rw [step_other_congr _ noAn _ _ (by intro id; simp)] at hs
+        have hS : stepC A x .tick = some { x with srv := s1 } := by
+          simp only [stepC, hx, Option.isSome_none, Bool.false_eq_true, if_false, hs, Option.map_some]
+        obtain ⟨x', hx1, hx2⟩ := ih { x with srv := s1 } s2 hx h
+        exact ⟨x', by simp only [List.replicate_succ, runC, hS]; exact hx1, hx2⟩
+  rw [run_append, hrun] at h1
+  obtain ⟨x', hx1, hx2⟩ := hticks _ cs s' hidle h1
+  refine ⟨x', by rw [runC_append, hr]; exact hx1, by rw [hx2]; exact h2, ?_⟩
+  intro u d hd
+  have hsent := SentInv.run _ hplain SentInv.init hrun
+  have hls : lastSent evs u = some d := hsent.chk u d hd
+  refine ⟨hls, ?_⟩
+  intro r hrr
+  obtain ⟨id, hj, hpub⟩ := h3 u d hls
+  refine ⟨id, ?_⟩
+  rw [hx2]
+  apply hpub
+  -- the job launched last for `u` finished, with the last settings, on the last text
+  obtain ⟨id', hj', hmark⟩ := hinv.recent hidle u d hd
+  rw [hj] at hj'
+  cases hj'
+  have hmem := lastLaunchedJ_mem hj
+  have hlt : id < cs.srv.nextId := hinv.lo.bound _ hmem
+  obtain ⟨f, hf, hfid⟩ := finish_recorded hr (hfair id hlt)
+  have hres := resOf_agrees (FinOk.run (FinOk.init A) hr).nodup f hf
+  rw [hfid] at hres
+  rw [hres]
+  have hcfg := hinv.fin f hf (by rw [hfid]; exact hmark)
+  obtain ⟨d', hd', htext⟩ := hinv.finText f hf
+  rw [hfid] at hd'
+  have hdd : d' = d := launched_unique hinv.lo.sorted hd' hmem
+  obtain ⟨a, ha⟩ := hinv.finRes f hf
+  rw [ha, hreset, hcfg, htext, hdd]
+  exact hrr
 
-/-- non-vacuity: an analyzer whose successor state is the last text it saw but whose result ignores the
-state (it "resets") — two documents, analyses out of launch order -/
+end config
+
+/-- non-vacuity, and the schedules the generator forces on the real servers: the configuration answer `9`
+arrives **while job 0 holds the analyzer** — the handler cannot run (`configLock` is not enabled), runs
+after `finish 0`, then the document is changed; jobs 2 and 3 (private re-analyses) and job 4 (shared) see
+settings `9`, and so does job 1, which was launched before the answer but obtained the mutex after it, and the last publication is the analysis of the last text under `9`. -/
 example :
-    let A : Analyzer := { fresh := 0, run := fun _ t => (some (t + 1), t) }
+    let A : CAnalyzer Nat := { fresh := 0, setCfg := fun _ a => a, run := fun c _ t => (some (1000 * c + t), t) }
     A.resets ∧
-    (runS A (sinit A) [.opn 7 1 100, .opn 8 1 200, .acquire 1, .finish 1, .acquire 0, .finish 0, .tick, .tick]).map
-      (fun ss => (ss.shared, ss.srv.published.map (fun p => (p.uri, p.diags)))) = some (100, [(7, 101), (8, 201)]) := by
-  refine ⟨fun _ _ => rfl, by decide⟩
+    runC A (cinit A) [.opn 7 1 100, .acquire 0, .configLock 9] = none ∧
+    (runC A (cinit A) [.opn 7 1 100, .opn 8 1 200, .acquire 0, .finish 0, .configLock 9, .acquire 1, .config 9 true [8, 7],
+        .chg 7 2 101, .finish 1, .acquire 3, .finish 3, .acquire 2, .finish 2, .acquire 4, .finish 4,
+        .tick, .tick, .tick, .tick, .tick]).map
+      (fun cs => [cs.acfg, cs.shared, cs.srv.published.length] ++
+                 ((lastPub cs.srv.published 7).map (fun p => [p.ver.getD 0, p.diags])).getD [] ++
+                 ((lastPub cs.srv.published 8).map (fun p => [p.ver.getD 0, p.diags])).getD [])
+      = some [9, 101, 5, 2, 9101, 1, 9200] := by
+  refine ⟨fun _ _ _ => rfl, by decide, by decide⟩
 
-/-- **The hypothesis is necessary** (this is the shape of a collision table that is not cleared between
-analyses): an analyzer whose result depends on what the previous analysis left behind publishes, for
-the final text `6`, something different from the analysis of `6` alone — and what it publishes depends
-on the schedule. -/
+/-! ## (vi) the analyzer object as a record of fields: when does `analyze` reset? -/
+
+/-- If every field whose incoming value the passes can observe is in the reset set of `analyze`, the
+result of `analyze` does not depend on the state the object is in: the hypothesis `resets` of (v). -/
+theorem fieldAnalyzer_resets {F : Type} (A : FieldAnalyzer F) (h : ∀ f, A.reads f = true → A.reset f = true) :
+    A.toC.resets := by
+  intro c a t
+  simp only [FieldAnalyzer.toC]
+  apply A.respects
+  intro f hf
+  simp only [FieldAnalyzer.enter, h f hf, if_true]
+
+open A2Verif.Gen.SrvState in
+/-- **Tie of the reset hypothesis to the source** (decided on tables regenerated from the working tree at
+every run): in each of the three analyzers every field that the passes read and write (`carried`: symbol
+tables, collision maps, flow state, diagnostics, pass and position counters; Merlin: `XC` count /
+processor selection, scope, include and fold stacks, assembler state) is assigned by `analyze` before it
+looks at the text; no field classified as constant or as settings is written by analysis code; the
+configuration handler of every server takes the shared analyzer with a blocking `lock()` and calls
+`set_config` under that guard; the analysis threads take it with `lock()`.  Removing a reset (seeded
+change C18-4: `self.ctx.reset_xc()` dropped from `analyze`) or replacing `lock()` by `try_lock()` in
+`response.rs` (C18-3) makes this theorem false. -/
+theorem analyze_is_function_of_text_current_tree :
+    tablesOk AField.all AField.cls AField.reset AField.mutated = true ∧
+    tablesOk IField.all IField.cls IField.reset IField.mutated = true ∧
+    tablesOk MField.all MField.cls MField.reset MField.mutated = true ∧
+    (∀ f : AField, f ∈ AField.all) ∧ (∀ f : IField, f ∈ IField.all) ∧ (∀ f : MField, f ∈ MField.all) ∧
+    (∀ s : Server, s.configLockCall = .lock ∧ s.threadLockCall = .lock ∧ s.configSetsShared = true) := by
+  refine ⟨by decide, by decide, by decide, ?_, ?_, ?_, ?_⟩
+  · intro f; cases f <;> decide
+  · intro f; cases f <;> decide
+  · intro f; cases f <;> decide
+  · intro s; cases s <;> decide
+
+open A2Verif.Gen.SrvState in
+/-- consequence for the three analyzers as they are in the working tree: any analyzer whose fields, reset
+set are the generated ones and whose passes observe at entry only `carried` fields (the reading of the
+classification in `Model/SrvFields.lean`; tested by the harness' history oracle, not proved) satisfies
+`resets`, so (v) applies to it.  Stated for Merlin, the analyzer with the largest carried state. -/
+theorem merlin_analyzer_resets (A : FieldAnalyzer MField) (hreset : A.reset = MField.reset)
+    (hreads : ∀ f, A.reads f = true → MField.cls f = .carried) : A.toC.resets := by
+  apply fieldAnalyzer_resets
+  intro f hf
+  have hc := hreads f hf
+  rw [hreset]
+  cases f <;> first | rfl | (simp [MField.cls] at hc)
+
+/-- **The hypothesis is necessary** (the shape of seeded change C18-4): a two-field analyzer — field 0 the
+`XC` count, which a text containing `XC` (text ≥ 100) raises and which decides how a later line is read;
+field 1 the diagnostics.  With the count in the reset set the publication for the final text `6` is what a
+new analyzer reports for `6`; with the count *not* reset (but set by `set_config`, as in the seeded
+change) an earlier version containing `XC` changes the diagnostics of the final text, although the
+published version is the right one. -/
 example :
-    let A : Analyzer := { fresh := 0, run := fun a t => (some (t + 1000 * a), t) }
-    ¬ A.resets ∧
-    A.alone 6 = some 6 ∧
-    (runS A (sinit A) [.opn 7 1 5, .chg 7 2 6, .acquire 0, .finish 0, .acquire 1, .finish 1, .tick, .tick]).map
-      (fun ss => (lastPub ss.srv.published 7).map (·.diags)) = some (some 5006) ∧
-    (runS A (sinit A) [.opn 7 1 5, .chg 7 2 6, .acquire 1, .finish 1, .acquire 0, .finish 0, .tick, .tick]).map
-      (fun ss => (lastPub ss.srv.published 7).map (·.diags)) = some (some 6) := by
-  refine ⟨?_, by decide, by decide, by decide⟩
-  intro h
-  have := h 1 0
-  simp at this
+    let mk (resetXc : Bool) : FieldAnalyzer (Fin 2) :=
+      { init := fun _ => 0, reset := fun f => f.val = 1 || resetXc, reads := fun f => f.val = 0,
+        setCfg := fun _ s => fun f => if f.val = 0 then 0 else s f,
+        body := fun _ s t => (some (t + 1000 * (if t ≥ 100 then 1 else s 0)), fun f => if f.val = 0 then (if t ≥ 100 then 1 else s 0) else t),
+        respects := by
+          intro _ s s' t h
+          have : s 0 = s' 0 := h 0 (by decide)
+          simp [this] }
+    (mk true).toC.alone 0 6 = some 6 ∧
+    (runC (mk true).toC (cinit (mk true).toC) [.opn 7 1 100, .chg 7 2 6, .acquire 0, .finish 0, .acquire 1, .finish 1, .tick, .tick]).map
+      (fun cs => (lastPub cs.srv.published 7).map (fun p => (p.ver, p.diags))) = some (some (some 2, 6)) ∧
+    (runC (mk false).toC (cinit (mk false).toC) [.opn 7 1 100, .chg 7 2 6, .acquire 0, .finish 0, .acquire 1, .finish 1, .tick, .tick]).map
+      (fun cs => (lastPub cs.srv.published 7).map (fun p => (p.ver, p.diags))) = some (some (some 2, 1006)) := by
+  refine ⟨by decide, by decide, by decide⟩
 
 end A2Verif.C18
